@@ -32,6 +32,7 @@ TRUSTED = [
     "and, through the Interval library's primitive-float/int arithmetic, the standard library's Uint63 / PrimFloat "
     "specification axioms (FloatAxioms.*, Uint63Axioms.*); all are declared by the standard library",
     "Interval 4.x, Flocq, Coquelicot as installed (their proofs are checked by the same kernel)",
+    "C15_perm_binary64_range: two integer comparisons by vm_compute on Z (no axioms beyond the reals)",
     "hand-written models Model/Bench.v tied to benchmark_functions.py / benchmark_robust.py by this correspondence run "
     "(value at sampled points within 1e-9 relative; declared box, direction, optimum, coordinates, accepted dimensions)",
     "the draws of random.uniform inside XinSheYang3 are an oracle tape; assumed to lie in [0,1]",
@@ -161,8 +162,8 @@ def run(ctx):
     tape = UniformTape(rng)
     bf.uniform = tape                        # XinSheYang3 calls the module-level name `uniform`
 
-    n_random = ctx.pick(30, 30)
-    n_near = ctx.pick(10, 10)
+    n_random = ctx.pick(30, 100)
+    n_near = ctx.pick(10, 30)
     goals_per_cfg = ctx.pick(3, 20)          # Coq point goals per configuration besides the optimum
     # Perm in 30 dimensions: 900 terms with powers up to 30 - a point goal costs 30 s; its formula is tied in n <= 10
     slow_cfg_goals = {("Perm", 30): ctx.pick(0, 2)}
@@ -543,7 +544,10 @@ LEVEL_TEXT = ("Machine-checked Coq theorems (Reals; hand proofs plus the verifie
               "implementation for a better point and probes re-entrancy / argument mutation.")
 LEVEL_NOTE = ("All 23 classes fully proved, both clauses (C15_analytic_benchmarks: 12 classes by hand; C15_interval_benchmarks: 10 classes; "
               "C15_xsy3_benchmark for every tape of draws in [0,1]); nothing partial. Dimension bounds that are part of the statements: Schwefel "
-              "n <= 3000 (alpha is truncated in the code: the minimum is -2.72e-7 per coordinate, so the documented 0 is met within 1e-3 only up to "
-              "n = 3676; C15_schwefel_every_dimension gives the bound -3.3e-7 n for every n), EqualityConstr n <= 10^6 (isclose slack 1e-9). "
-              "Michalewicz 5/10 and Schubert document no coordinates: the value clause is existential there. 'Returns one finite float' is sampled by "
-              "the oracle only (the R model cannot overflow). Correspondence is sampled; theorems are unbounded in the box. See notes/C15.md.")
+              "n <= 3 000 000 for the value clause only (the documented coordinates 420.9687 are rounded: 2.7e-10 per coordinate; "
+              "C15_schwefel_every_dimension gives f >= 0 for every n, model of the code after fix F9), EqualityConstr n <= 10^6 (isclose slack "
+              "1e-9). Michalewicz 5/10 and Schubert document no coordinates: the value clause is existential there. 'Returns one finite float' "
+              "is sampled by the oracle only (the R model cannot overflow); for Perm it cannot hold beyond dimension 80: "
+              "C15_perm_binary64_range proves the real value fits binary64 on the whole box iff dimension <= 80 (open known finding F10: "
+              "Perm(dimension >= 81) raises OverflowError / returns inf at box points; the oracle excuses exactly the points whose exact "
+              "rational value exceeds the largest binary64). Correspondence is sampled; theorems are unbounded in the box. See notes/C15.md.")
